@@ -183,6 +183,7 @@ type Engine struct {
 	schedForks  int
 	schedOff    bool
 	permOff     bool
+	permRev     bool // iterate every map in reverse insertion order (verifMapReverse)
 	permForks   int
 	Notifies    int
 	race        *raceState
@@ -788,6 +789,7 @@ func (e *Engine) runPath(entry *ssa.Function) {
 	e.lockBusy = false
 	e.onLock = nil
 	e.permOff = false
+	e.permRev = false
 	e.permForks = 0
 	e.sol.Push()
 	outcome := "ok"
